@@ -118,7 +118,10 @@ def run_check(mod, tier, seed, only_case=None):
         "fails": [],
         "slowest": 0.0,
     }
+    all_results = []
     for case, r in zip(cases, pmap(mod, cases)):
+        if hasattr(mod, "cross_check"):
+            all_results.append(r)
         agg["evaluations"] += int(r.get("n", 1))
         agg["slowest"] = max(agg["slowest"], r["wall"])
         if r.get("nontrivial", True):
@@ -133,6 +136,9 @@ def run_check(mod, tier, seed, only_case=None):
         if r.get("sample") is not None and len(agg["samples"]) < 4:
             agg["samples"].append(r["sample"])
         for f in r["fails"]:
+            agg["fails"].append((case, f))
+    if hasattr(mod, "cross_check") and only_case is None:
+        for case, f in mod.cross_check(cases, all_results):
             agg["fails"].append((case, f))
     return finish(mod, tier, seed, agg, t0, replaying=only_case is not None)
 
